@@ -4821,6 +4821,10 @@ class FST:
                     or fend_ln < end_ln
                     or ((same_end_ln := fend_ln == end_ln) and fend_col < end_col)
                 ):
+                    for deco in getattr(f.a, 'decorator_list', ()):  # decorators are children which precede the `loc` of their definition
+                        if found := deco.f.find_contains_loc(ln, col, end_ln, end_col, allow_exact):
+                            return found
+
                     return self
 
                 if same_ln and same_end_ln and fcol == col and fend_col == end_col:  # exact match
